@@ -60,6 +60,7 @@ class SimCfg:
     behav: dict[int, list[Behav]] = field(default_factory=dict)     # index -> behaviour per attempt
     node_ids: dict[int, list[str]] = field(default_factory=dict)    # worker number -> what it collects (default: ids)
     collect_errors: dict[int, list[str]] = field(default_factory=dict)  # worker number -> longrepr texts of failed collect reports
+    collect_skips: dict[int, list[str]] = field(default_factory=dict)   # worker number -> reasons of skipped collect reports (module-level skip)
     requeue: dict[str, int] = field(default_factory=dict)           # crash hook: nodeid -> how many times it re-queues
     boot_crash: dict[int, str] = field(default_factory=dict)        # worker number -> lifecycle point at which it dies
     #   'boot' (before workerready) | 'collect' (after ready, before collectionfinish) | 'collected' (right after collectionfinish)
@@ -239,6 +240,13 @@ class SimWorker:
                 return self.die("collection")
             self.emit("collectionstart")
             errs = cfg.collect_errors.get(self.number, [])
+            skips = cfg.collect_skips.get(self.number, [])
+            for text in skips:
+                # module-level skip (pytest.importorskip / pytest.skip(allow_module_level=True)): the worker goes on
+                rep = pytest.CollectReport(nodeid=text.split("|")[0], outcome="skipped", longrepr=(text.split("|")[0], 1, "Skipped: " + text), result=[])
+                data = sim.config.hook.pytest_report_to_serializable(config=sim.config, report=rep)
+                self.emit("collectreport", data=data)
+                self.produced.append(("collect", str(rep.longrepr)))
             for text in errs:
                 rep = pytest.CollectReport(nodeid=text.split("|")[0], outcome="failed", longrepr=text, result=[])
                 data = sim.config.hook.pytest_report_to_serializable(config=sim.config, report=rep)
@@ -257,6 +265,7 @@ class SimWorker:
                 self.pc = "loop0"
                 self.cb_set = True          # pytest_runtestloop registers handle_command
             self.sys_steps.append(f"main {self.id[2:]} collect {'1' if point == 'garbage' and not errs else '0'}"
+                                  + "".join(f" {esc(str((t.split('|')[0], 1, 'Skipped: ' + t)))} 0" for t in skips)
                                   + "".join(f" {esc(t)} 1" for t in errs))
             if point == "collected":
                 return self.die("after collection")
